@@ -27,7 +27,11 @@ TopOr(s) == IF s = <<>> THEN <<>> ELSE s[Len(s)]
 
 Init == l = 1 /\ vm = NoVM /\ cx = NoVM /\ mode = "idle" /\ nsteps = 0
 
+\* every hash a signer embedded in a preimage is an oracle obligation
+SignerHashes(e) == \A i \in 1..Len(e.sx.sigs) : \A j \in 1..Len(e.sx.sigs[i].hs) :
+                      Emit([k |-> "hash", kind |-> "sha256d", in |-> e.sx.sigs[i].hs[j].in, out |-> e.sx.sigs[i].hs[j].out, ref |-> 0])
 TrBegin == /\ Ev.ev = "begin"
+           /\ Has(Ev, "sx") => SignerHashes(Ev)
            /\ cx' = Cx(Ev)
            /\ vm' = Begin(Ev.unlock, Ev.lock, Cx(Ev))
            /\ mode' = IF Excluded(Cx(Ev)) THEN "skip" ELSE "run"
